@@ -263,8 +263,16 @@ def lib_option(option, field):
     return L.key.SshCertExtensionUnparsed(name, data), 'SshCertExtensionUnparsed'
 
 
-def _lib_time(seconds):
-    return EPOCH + datetime.timedelta(seconds=seconds)
+def _lib_time(seconds, offset_minutes=0):
+    """The instant as an aware datetime; offset_minutes != 0 gives the same instant expressed in another zone (a
+    caller in Kolkata or New York hands over such values; the wire carries the instant, not the spelling)."""
+    instant = EPOCH + datetime.timedelta(seconds=seconds)
+    if offset_minutes:
+        try:
+            return instant.astimezone(datetime.timezone(datetime.timedelta(minutes=offset_minutes)))
+        except OverflowError:
+            return instant
+    return instant
 
 
 def lib_key(key):
@@ -278,8 +286,8 @@ def lib_key(key):
     common = dict(
         host_key_algorithm=algorithm, public_key=lib_public_key(key['key']), certificate_type=cert_type,
         key_id=key['key_id'], valid_principals=L.key.SshCertValidPrincipals([L.key.SshString(p) for p in key['principals']]),
-        valid_after=_lib_time(key['valid_after']),
-        valid_before=None if key['valid_before'] == FOREVER else _lib_time(key['valid_before']),
+        valid_after=_lib_time(key['valid_after'], key.get('zone_minutes', 0)),
+        valid_before=None if key['valid_before'] == FOREVER else _lib_time(key['valid_before'], key.get('zone_minutes', 0)),
         nonce=bytes(key['nonce']), reserved=bytes(key['reserved']), signature_key=lib_key(key['signature_key']),
         signature=L.key.SshCertSignature(L.names['hostkey'][key['signature']['type']], bytes(key['signature']['blob'])),
     )
@@ -630,7 +638,7 @@ def _key_parse_findings(model, obj, locus):
         got = key_model(obj)
     except Exception as e:  # pylint: disable=broad-except
         return [Finding('parse-fails:%s/%s' % (type(e).__name__, expected_class), {'error': _short(e), 'stage': 'reading attributes'})]
-    expected = ref.generic_key(model)
+    expected = ref.generic_key(_wire_fields(model))
     option_fields = [field for field in OPTION_FIELDS if field in model]
     if option_fields:
         findings.extend(_option_findings(model, obj, locus))
@@ -802,7 +810,17 @@ def _check_banner(case):
     return findings
 
 
+def _wire_fields(model):
+    """The model without the adapter-only field zone_minutes (at any depth)."""
+    if isinstance(model, dict):
+        return {name: _wire_fields(value) for name, value in model.items() if name != 'zone_minutes'}
+    if isinstance(model, list):
+        return [_wire_fields(item) for item in model]
+    return model
+
+
 def message_reference(model):
+    model = _wire_fields(model)
     reference = ref.encode_message(model)
     context = MESSAGE_CONTEXT[model['t']][0]
     if ref.decode_message(reference, context) != ref.generic_message(model):
@@ -811,6 +829,7 @@ def message_reference(model):
 
 
 def key_reference(model):
+    model = _wire_fields(model)
     reference = ref.encode_key(model)
     if diff(ref.generic_key(model), ref.decode_key(reference)) is not None:
         raise AssertionError('reference key codec is not self-consistent for %r' % (model['t'],))
@@ -822,7 +841,7 @@ def _message_parse_findings(model, parsed, locus):
     if type(parsed).__name__ != locus:
         return [Finding('wrong-type/%s' % locus, {'got_class': type(parsed).__name__})]
     findings = []
-    expected = ref.generic_message(model)
+    expected = ref.generic_message(_wire_fields(model))
     if 'host_key' in model:
         inner = _key_parse_findings(model['host_key'], parsed.host_public_key, locus)
         if inner:
@@ -874,12 +893,39 @@ def _check_key(case):
         findings.extend(failed)
         if obj is not None:
             findings.extend(_compose_findings(model, obj, reference, locus))
+            if not findings and model.get('principals'):
+                findings.extend(_edited_principal(model, locus))
     for parser_class in (L.key.SshHostPublicKeyVariant, getattr(L.key, locus)):
         parsed, failed = _parse(parser_class, reference, locus, model=model)
         findings.extend(failed)
         if parsed is not None:
             findings.extend(_key_parse_findings(model, parsed, locus))
     return _dedupe(findings)
+
+
+def _edited_principal(model, locus):
+    """A principal renamed in place on the built certificate (the list is a vector of mutable strings): compose() must
+    give the reference encoding of the model with the new name."""
+    import copy  # pylint: disable=import-outside-toplevel
+    obj = lib_key(model)
+    index = len(model['principals']) // 2
+    edited = copy.deepcopy(model)
+    edited['principals'][index] = model['principals'][index] + 'xy'
+    obj.valid_principals[index].value = edited['principals'][index]
+    try:
+        reference = key_reference(edited)
+    except Exception:  # pylint: disable=broad-except
+        return []
+    try:
+        composed = bytes(obj.compose())
+    except Exception as e:  # pylint: disable=broad-except
+        return [Finding('edited-compose-raises:%s/SshCertValidPrincipals' % type(e).__name__, {'outer': locus, 'error': _short(e)})]
+    if composed != reference:
+        position = next((i for i, (a, b) in enumerate(zip(composed, reference)) if a != b), min(len(composed), len(reference)))
+        return [Finding('edited-compose-differs/SshCertValidPrincipals', {
+            'outer': locus, 'edit': 'valid_principals[%d].value + "xy"' % index, 'first_difference_at': position,
+            'composed_length': len(composed), 'reference_length': len(reference)})]
+    return []
 
 
 def packet_message(spec):
@@ -957,7 +1003,7 @@ def _check_packet(case):
     if spec.get('pads') not in (None, 'all'):
         pads = [pad for pad in spec['pads'] if pad in pads]
     rng = random.Random(spec.get('seed', 0) * 1000003 + spec['length'])
-    expected = ref.generic_message(model)
+    expected = ref.generic_message(_wire_fields(model))
     for pad in pads:
         fill = spec.get('fill', 'random')
         padding = bytes(rng.getrandbits(8) for _ in range(pad)) if fill == 'random' else bytes([int(fill)]) * pad
@@ -1250,6 +1296,8 @@ def st_certificate(min_value=0, versions=('v01', 'v01', 'v01', 'v00')):
             'principals': draw(st.one_of(st.just([]), st.lists(st.text(alphabet=NOSPACE, min_size=1, max_size=20), min_size=1, max_size=4),
                                          st.lists(text(12), max_size=3))),
             'valid_after': valid_after, 'valid_before': valid_before,
+            # the zone in which the adapter expresses the two instants when it builds the object (not on the wire)
+            'zone_minutes': draw(st.sampled_from((0, 0, 0, 120, -330, 345, -720, 840))),
             'nonce': draw(st_blob(40, (0, 16, 32, 33))),
             'reserved': draw(st.one_of(st.just(jbytes(b'')), st.just(jbytes(b'')), st.just(jbytes(b'')), st_blob(12))),
             'signature_key': signature_key,
@@ -1332,13 +1380,30 @@ def st_banner():
             case['expect_class'] = True
         return case
 
-    def fits(case):
-        model = case['model']
+    def length_of(model):
         length = 4 + len('%d.%d' % tuple(model['proto'])) + 1 + len(software_string(model['sw'])) + 2
         if model['comment'] is not None:
             length += 1 + len(model['comment'])
-        return length <= 255
+        return length
+
+    def fits(case):
+        return length_of(case['model']) <= 255
+
+    def stretched(case, target):
+        """The same banner with its comment padded so that the whole line (CR LF included) is `target` octets long:
+        RFC 4253 4.2 allows 255."""
+        model = dict(case['model'])
+        if model['comment'] is None:
+            model['comment'] = 'c'
+        missing = target - length_of(model)
+        if missing < 0:
+            return case
+        model['comment'] = model['comment'] + 'c' * missing
+        return dict(case, model=model)
+    plain = st.builds(assemble, proto, st.one_of(canonical, canonical, unknown), comment, st.just(False)).filter(fits)
+    at_limit = st.builds(stretched, plain, st.sampled_from((253, 254, 255, 255)))
     return st.one_of(
+        at_limit,
         st.builds(assemble, proto, st.one_of(canonical, canonical, canonical, unknown), comment, st.just(False)),
         st.builds(assemble, proto, st.one_of(canonical, canonical, canonical, unknown), comment, st.just(False)),
         st.builds(assemble, proto, st.one_of(canonical, canonical, canonical, unknown), comment, st.just(False)),
